@@ -82,16 +82,17 @@ Proof. exact alu_example. Qed.
 (* full statement: Scriggo's order of variable initialisation is Go's *)
 Definition C01_init_order_statement : Prop := forall p : pkg, well_named p -> go_order p = sc_order p.
 
-(* it is false: a variable whose initialiser reaches another variable only
-   through a function is initialised too early (known finding
-   init-order-through-function) *)
-Theorem C01_init_order_refuted : exists p, sc_order p <> go_order p /\ sc_order p = [1; 2]%N /\ go_order p = [2; 1]%N.
-Proof. exists witness. destruct init_order_refuted as [H1 H2]. rewrite H1, H2. repeat split. discriminate. Qed.
-
-(* proved part: the orders agree whenever no function reached from an
-   initialiser refers, even indirectly, to a package-level variable *)
-Theorem C01_init_order_partial : forall p, well_named p ->
-  (forall v f, In v (vars p) -> In f (filter (is_func p) (snd v)) -> fdeps p (length (funcs p)) f = []) ->
-  go_order p = sc_order p.
+(* it holds for the code as it is (after the repair recorded in KNOWN_FINDINGS.txt:
+   a reference to a function is resolved when the variables the function
+   reaches are initialised) *)
+Theorem C01_init_order_holds : C01_init_order_statement.
 Proof. exact init_order_agree. Qed.
-Print Assumptions C01_init_order_partial.
+Print Assumptions C01_init_order_holds.
+
+(* the algorithm before the repair, in which every function counted as
+   resolved, is refuted by var a = f(); var b = g(1); func f() int { return b + 1 } *)
+Theorem C01_init_order_old_refuted :
+  exists p, sc_order_old p <> go_order p /\ sc_order_old p = [1; 2]%N /\ go_order p = [2; 1]%N /\ sc_order p = [2; 1]%N.
+Proof.
+  exists witness. destruct init_order_old_refuted as [H1 [H2 H3]]. rewrite H1, H2, H3. repeat split. discriminate.
+Qed.
